@@ -216,6 +216,14 @@ Proof.
   cbn in Hl. apply andb_prop in Hl as [Hd Hl]. apply IH; [exact Hl|]. unfold digit_ok in Hd. lia.
 Qed.
 
+Lemma depth_fold_le l n :
+  Forall (fun x => (jdepth x <= n)%nat) l -> (fold_right (fun x acc => Nat.max (jdepth x) acc) O l <= n)%nat.
+Proof. induction 1; cbn; lia. Qed.
+Lemma depth_fold_le_m (m : list (string * json)) n :
+  Forall (fun kv => (jdepth (snd kv) <= n)%nat) m ->
+  (fold_right (fun kv acc => Nat.max (jdepth (snd kv)) acc) O m <= n)%nat.
+Proof. induction 1; cbn; lia. Qed.
+
 Section ParseSound.
   Variable float_of_tok : numtok -> option num.
   Variable p : jnumber -> bool.
@@ -293,14 +301,6 @@ Section ParseSound.
     - destruct (byte (ch (skip_ws r2)) =? 125); [|discriminate]. inversion H; subst.
       exists [(key, x)]. split; [reflexivity|]. now constructor.
   Qed.
-
-  Lemma depth_fold_le l n :
-    Forall (fun x => (jdepth x <= n)%nat) l -> (fold_right (fun x acc => Nat.max (jdepth x) acc) O l <= n)%nat.
-  Proof. induction 1; cbn; lia. Qed.
-  Lemma depth_fold_le_m (m : list (string * json)) n :
-    Forall (fun kv => (jdepth (snd kv) <= n)%nat) m ->
-    (fold_right (fun kv acc => Nat.max (jdepth (snd kv)) acc) O m <= n)%nat.
-  Proof. induction 1; cbn; lia. Qed.
 
   (* whatever parse_value returns carries only numbers satisfying p, and is nested at most
      remaining_depth - 1 deep *)
